@@ -149,8 +149,30 @@ def _has_nan(v):
     return False
 
 
+def _still_registered(v):
+    """False for an object whose category has meanwhile been re-registered with another quantity
+    type (its unit is not a unit of the category any more): it cannot be re-created from its
+    description, pickling it is not covered by any statement."""
+    q = M.quantity_of(v)
+    if q is None:
+        return True
+    db = _db()
+    try:
+        for cat, ue in q.GetCategoryToUnitAndExps().items():
+            if not cat and not ue[0]:
+                continue
+            if db.IsValidCategory(cat) and db.GetCategoryQuantityType(cat) != M.unit_type(ue[0]) and db.GetCategoryQuantityType(cat) != M.UNKNOWN:
+                return False
+    except Exception:
+        return True
+    return True
+
+
 def _eq(sim, op, spec, out, orig):
     if orig is _MISSING or out[0] == "intr":
+        return
+    if "pickle" in spec["id"] and not _still_registered(orig):
+        sim.count("precondition_lapsed")
         return
     if out[0] == "exc":
         sim.check(False, spec["id"], {"case": "raises", "via": op["k"], "class": type(orig).__name__}, op["i"], "%s raised %r" % (op["k"], out[1]))
